@@ -23,6 +23,8 @@ from sa.pyfront import Program
 from sa.symex import Interp
 
 RULES = {
+    "R-C03-l": "xcube strides are row-major: multipliers[k] = product of the extents after k (evaluated symbolically on a shape of 1, 2 and 3 dimensions), matching the C-order reshape of the regions",
+    "R-C03-k": "the array cube's fill methods write through C-order reshape views of the regions (xfunc.flat_regions): flat cell i is the cell of strided coordinate i, and the writes land in the cube's arrays",
     "R-C03-j": "no fill method accumulates with `region[<integer array>] += v` (applied once per distinct index, so rows sharing a cell are lost); per-row accumulation goes through bincount",
     "R-C03-i": "every region an aggregate allocates is 64-bit int/float (or the fact array's own dtype): wide enough for any row count and for the negative intermediate values of marginal differencing",
     "R-C03-h": "every near-zero test that decides 'this differenced counter is zero' (adjust_zeros' default, ffunc_count/xfunc_count.reduce) uses isclose(x, 0) with NumPy's default absolute tolerance, as documented - not a narrower one",
@@ -196,6 +198,90 @@ def rule_strides(prog, rep):
     rep.check(ok2, "R-C03-e", fset.fq, "mintype is the first unsigned type whose maximum is >= the total number of cells", why, why)
 
 
+class _Vec(list):
+    """a vector of monomials: each element a sorted tuple of symbols (the product); () is 1"""
+
+
+def _sym_eval(t, I, shape):
+    """Evaluate a term built from list/reversed/cumprod/flip/append/concatenate/slices over self.interacting_shape
+    on the symbolic vector `shape`; None when a form is not understood."""
+    nm = tm.callee_name(t) if t.op == "call" else None
+    if t.op == "attr" and t.args[1] == "interacting_shape":
+        return _Vec(shape)
+    if t.op == "alloc" and t in I.heap:
+        els = I.heap[t].get("elts", []) or I.heap[t].get("literal", [])
+        out = _Vec()
+        for el in els:
+            if tm.is_const(el, 1):
+                out.append(())
+            else:
+                return None
+        return out
+    if t.op == "call" and nm in ("builtins.list", "builtins.tuple", "numpy.array", "numpy.asarray") and t.args[1]:
+        return _sym_eval(t.args[1][0], I, shape)
+    if t.op == "call" and nm in ("builtins.reversed", "numpy.flip") and t.args[1]:
+        v = _sym_eval(t.args[1][0], I, shape)
+        return None if v is None else _Vec(reversed(v))
+    if t.op == "call" and nm == "numpy.cumprod" and t.args[1]:
+        v = _sym_eval(t.args[1][0], I, shape)
+        if v is None:
+            return None
+        out, acc = _Vec(), ()
+        for m in v:
+            acc = tuple(sorted(acc + m))
+            out.append(acc)
+        return out
+    if t.op == "call" and nm in ("numpy.append", "numpy.concatenate"):
+        parts = t.args[1] if nm == "numpy.append" else None
+        if nm == "numpy.concatenate" and t.args[1]:
+            a0 = t.args[1][0]
+            parts = a0.args if a0.op in ("tuple", "list") else (I.heap[a0].get("elts") if a0.op == "alloc" and a0 in I.heap else None)
+        if not parts:
+            return None
+        out = _Vec()
+        for p in parts[:2] if nm == "numpy.append" else parts:
+            v = _sym_eval(p, I, shape)
+            if v is None:
+                return None
+            out.extend(v)
+        return out
+    if t.op == "sub" and t.args[1].op == "slice":
+        v = _sym_eval(t.args[0], I, shape)
+        if v is None:
+            return None
+        lo, hi, st = t.args[1].args
+        def c(x):
+            return None if x == tm.NONE else (x.args[1] if tm.is_const(x) and isinstance(x.args[1], int) else "?")
+        lo, hi, st = c(lo), c(hi), c(st)
+        if "?" in (lo, hi, st):
+            return None
+        return _Vec(list(v)[slice(lo, hi, st)])
+    return None
+
+
+def rule_l(prog, rep):
+    fi = prog.func("xcubes", "xcube._set_strides")
+    I = Interp(prog, hints.param_types_for("xcubes"), hints.FIELD_TYPES, inline=False)
+    I.run(fi)
+    st = [e for e in I.events if e.kind == "store_attr" and e["attr"] == "multipliers" and e["base"] == tm.param("self")]
+    if len(st) != 1:
+        rep.undecided("R-C03-l", fi.fq, "strides", "expected one store to self.multipliers, found %d" % len(st))
+        return
+    t = st[0]["value"]
+    for n in (1, 2, 3):
+        shape = [("d%d" % k,) for k in range(n)]
+        got = _sym_eval(t, I, shape)
+        want = [tuple(sorted(sum((shape[j] for j in range(k + 1, n)), ()))) for k in range(n)]
+        cons = "multipliers for %d dimension(s)" % n
+        if got is None:
+            rep.undecided("R-C03-l", fi.fq, cons, "form not evaluable: %s" % tm.show(t)[:80])
+            continue
+        show = lambda v: ["*".join(m) or "1" for m in v]
+        rep.check(list(got) == want, "R-C03-l", "%s@%d" % (fi.fq, st[0].line), cons, "row-major strides %s" % show(want),
+                  "strides are %s but the regions are reshaped in C (row-major) order, which needs %s: the flat cell number of (i, j, ...) addresses another cell" % (show(got), show(want)),
+                  witness={"inputs": "xcube over two dimensions of different extents, e.g. 2 x 3: counts land in transposed positions"})
+
+
 def rule_g(prog, rep):
     from sa import tasks
     info = tasks.analyse_cube(prog, "xcubes", "xcube")
@@ -233,6 +319,11 @@ def main(tier):
     for rule, status, where, cons, detail, wit in CT.items:
         rep.add(rule, where, cons, status, detail, True, wit)
     rep.floor("R-C03-h", 4, nt)
+    CV = AT.Collector()
+    nv = AT.rule_flat_views(prog, CV, "R-C03-k")
+    for rule, status, where, cons, detail, wit in CV.items:
+        rep.add(rule, where, cons, status, detail, True, wit)
+    rep.floor("R-C03-k", 2, nv)
     CF = AT.Collector()
     nf = AT.rule_fancy_increment(prog, CF, "R-C03-j")
     for rule, status, where, cons, detail, wit in CF.items:
@@ -244,6 +335,7 @@ def main(tier):
         rep.add(rule, where, cons, status, detail, True, wit)
     rep.floor("R-C03-i", 20, nd)
     rule_g(prog, rep)
+    rule_l(prog, rep)
     for rule, status, where, cons, detail, wit in C.items:
         rep.add(rule, where, cons, status, detail, True, wit)
     for m in list(AT._cache.values()):
